@@ -114,6 +114,39 @@ fn verify_with(rd: &RevDef, req: &ReqSpec, proof: &Value, nonce: &Nonce, rc: Opt
     }
 }
 
+/// as `verify_with`, the verifier having called `accept_legacy_revocation(true)`
+fn verify_with_legacy(rd: &RevDef, req: &ReqSpec, proof: &Value, nonce: &Nonce, rc: &RegCtx, reg: &RevocationRegistry) -> Out<bool> {
+    let cd = &rd.cd;
+    match from_jv::<Proof>(proof) {
+        Ok(p) => guard(|| {
+            let mut pv = Verifier::new_proof_verifier()?;
+            pv.accept_legacy_revocation(true);
+            pv.add_common_attribute("master_secret")?;
+            let r = req.build().map_err(|e| Error::new(ErrorKind::InvalidState, e))?;
+            pv.add_sub_proof_request(&r, &cd.schema, &cd.non_schema, &cd.pk, Some(&rc.key_pub), Some(reg))?;
+            pv.verify(&p, nonce)
+        }),
+        Err(e) => Out::Err(format!("decode: {}", e)),
+    }
+}
+
+/// two sub-proof requests, a registry supplied for the FIRST one only
+fn verify_first_registry_only(rd: &RevDef, req: &ReqSpec, proof: &Value, nonce: &Nonce, rc: &RegCtx, reg: &RevocationRegistry) -> Out<bool> {
+    let cd = &rd.cd;
+    match from_jv::<Proof>(proof) {
+        Ok(p) => guard(|| {
+            let mut pv = Verifier::new_proof_verifier()?;
+            pv.add_common_attribute("master_secret")?;
+            let r = req.build().map_err(|e| Error::new(ErrorKind::InvalidState, e))?;
+            pv.add_sub_proof_request(&r, &cd.schema, &cd.non_schema, &cd.pk, Some(&rc.key_pub), Some(reg))?;
+            let r2 = req.build().map_err(|e| Error::new(ErrorKind::InvalidState, e))?;
+            pv.add_sub_proof_request(&r2, &cd.schema, &cd.non_schema, &cd.pk, None, None)?;
+            pv.verify(&p, nonce)
+        }),
+        Err(e) => Out::Err(format!("decode: {}", e)),
+    }
+}
+
 /// one presentation over several credentials of the same definition / registry; `with_nr[i]` says
 /// whether sub-proof i carries a non-revocation part.  Returns the proof and the seven blinders per part.
 fn build_multi(rd: &RevDef, hs: &[&Holder], req: &ReqSpec, reg: &RevocationRegistry, with_nr: &[bool], nonce: &Nonce) -> Result<(Value, Vec<Vec<String>>), String> {
@@ -218,6 +251,9 @@ fn emit_case(id: &str, rd: &RevDef, rc: &RegCtx, req: &ReqSpec, h: &Holder, proo
     }
     if let Some(ce) = clist_exps {
         ctx["clist"] = ce;
+    }
+    if kind.contains("legacy_verifier") {
+        ctx["accept_legacy"] = json!(true);
     }
     let _ = h.factors_vr.len();
     if !nrp.is_null() {
@@ -411,6 +447,40 @@ fn gen_nr(thorough: bool, rng: &mut Rng) -> Result<(), String> {
             p3["proofs"][0]["non_revoc_proof"]["x_list"]["m2"] = json!(inj.to_string().map_err(e)?);
             let r3 = verify_with(&rd, &req, &p3, &nonce, Some(&rc), Some(&reg1));
             emit_case(&format!("nr/{}/hybrid-legacy-m2", run), &rd, &rc, &req, &hybrid, &p3, &p.ctape, &nonce, &valid1, &reg1, &r3, false, "transplanted_with_legacy_m2", None);
+        }
+        // (k) a verifier that accepts legacy proofs shown an honest CURRENT-format proof (no x_list.m2): accepted,
+        //     and the same proof with the legacy field present is then read the legacy way (wrong sign): rejected
+        {
+            let p = build_proof(&rd, &holders[0], &req, Some(&reg1), &nonce)?;
+            let r = verify_with_legacy(&rd, &req, &p.proof, &nonce, &rc, &reg1);
+            emit_case(&format!("nr/{}/legacy-verifier-current-proof", run), &rd, &rc, &req, &holders[0], &p.proof, &p.ctape, &nonce, &valid1, &reg1, &r, true, "valid_current legacy_verifier", None);
+            let pr = build_proof(&rd, &holders[1], &req, Some(&reg1), &nonce)?;
+            let rr = verify_with_legacy(&rd, &req, &pr.proof, &nonce, &rc, &reg1);
+            emit_case(&format!("nr/{}/legacy-verifier-revoked", run), &rd, &rc, &req, &holders[1], &pr.proof, &pr.ctape, &nonce, &valid1, &reg1, &rr, false, "revoked_credential legacy_verifier", None);
+        }
+        // (l) two requests, a registry for the first only: the revoked holder omits the part for the first and attaches
+        //     a (valid, but unasked-for) part to the second sub-proof as a decoy: counting parts is not enough
+        {
+            let hs = [&holders[1], &holders[2]];
+            let (p, tapes) = build_multi(&rd, &hs, &req, &reg1, &[false, true], &nonce)?;
+            let r = verify_first_registry_only(&rd, &req, &p, &nonce, &rc, &reg1);
+            let mut creds = vec![];
+            for (i, _h) in hs.iter().enumerate() {
+                // verifier's view: registry for the first request only; the model ignores a part nobody asked for
+                let cj = cred_json(&rd.cd, &req, i == 0, i == 0);
+                creds.push(cj);
+            }
+            let _ = tapes;
+            let mut oracles = vec![];
+            if matches!(r, Out::Ok(true)) {
+                oracles.push(json!({"name": "nonrevoc_enforced", "ok": false, "detail": "omitted_with_decoy: a proof without the part for the sub-proof that has a registry, and an unasked-for part on another sub-proof, was accepted"}));
+            }
+            let mut implv = out_bool_json(&r);
+            implv["oracles"] = json!(oracles);
+            emit(&json!({"id": format!("nr/{}/omitted-with-decoy", run), "op": "verify",
+                "in": {"backend": backend_str(), "mode": mode_str(), "common": ["master_secret"], "creds": creds, "proof": p,
+                       "nonce": nonce.to_dec().unwrap_or_default()},
+                "impl": implv, "class": {"kind": "omitted_with_decoy", "ncred": 2, "alteration": "omitted_with_decoy"}}));
         }
         // (h) no registry supplied: the non-revocation part is not checked and the primary part alone decides
         {
